@@ -28,6 +28,8 @@ def leaf():
         ("IntI32", "(-2147483648..2147483647)"), ("IntI32Hi", "(-1..2147483647)"), ("IntI32HiP", "(-1..2147483648)"),
         ("IntI32Lo", "(-2147483648..0)"), ("IntI32LoM", "(-2147483649..0)"), ("IntU32P", "(0..4294967296)"),
         ("IntU31", "(0..2147483647)"), ("IntI16Hi", "(-1..32767)"), ("IntI16HiP", "(-1..32768)"),
+        # extensible with an open end (the attribute is printed with the `max` / `min` keyword)
+        ("IntSemiExt", "(5..MAX,...)"), ("IntNegSemiExt", "(-5..MAX,...)"),
     ]
     for n, c in ints:
         d.append(f"{n} ::= INTEGER {c}")
